@@ -26,6 +26,7 @@ package storage
 //@   props C17 C05
 //@   invariant ramInv(s)
 //@   modifies s.parts
+//@   ensures s.finalized == old(s.finalized)
 //@   ensures result != nil && is(result, *partRAM) && fresh(result)
 //@   ensures len(s.parts) == old(len(s.parts)) + 1 && s.parts[len(s.parts)-1] == result.(*partRAM)
 //@   ensures forall(i, (0 <= i && i < old(len(s.parts))) ==> s.parts[i] == old(s.parts[i]))
@@ -138,4 +139,24 @@ package storage
 //@   ensures calls("invoke.Seek") == 2 ==> (callarg("invoke.Seek", 1, 0) == ref(w.w2) && callarg("invoke.Seek", 1, 1) == offset && callarg("invoke.Seek", 1, 2) == whence)
 //@   ensures calls("invoke.Seek") == 1 ==> (result0 == 0 && result1 != nil)
 //@   ensures calls("invoke.Seek") <= 2
+//@ end
+
+
+// client view of a File: "open" = parts may still be allocated and written (not finalized)
+//@ pred fileOpen(f File) := f != nil && ref(f) != 0 && (is(f, *fileDisk) || is(f, *fileRAM))
+//@   && (is(f, *fileDisk) ==> f.(*fileDisk).f != nil) && (is(f, *fileRAM) ==> !f.(*fileRAM).finalized)
+
+//@ func newFileDisk
+//@   props C17
+//@   ensures result1 == nil ==> (result0 != nil && is(result0, *fileDisk) && fresh(result0) && diskInv(result0.(*fileDisk)) && result0.(*fileDisk).f != nil && result0.(*fileDisk).fpath == fpath)
+//@ end
+
+//@ func factoryRAM.NewFile
+//@   props C17
+//@   ensures result1 == nil && fileOpen(result0) && fresh(result0)
+//@ end
+
+//@ func factoryDisk.NewFile
+//@   props C17
+//@   ensures result1 == nil ==> (fileOpen(result0) && fresh(result0))
 //@ end
